@@ -45,7 +45,7 @@ def switch_table(f, sw=None):
     if sw is None:
         sws = [n for n in facts.fn_nodes(f) if n["k"] == "SwitchStmt"]
         if not sws:
-            return None
+            return table_by_evaluation(f)
         sw = sws[0]
     real = [x for x in sw["c"] if x is not None]
     body = real[-1]
@@ -96,3 +96,41 @@ def has_default(sw):
         if x["k"] == "DefaultStmt":
             return True
     return False
+
+
+def table_by_evaluation(f):
+    """The same finite map for a function that is not written as a switch (a constant table searched by a loop, an
+    if-chain ...): a one-parameter function from an enumeration to an integer/enumeration is EXECUTED (ieval, concrete)
+    for every enumerator of its parameter type and for one value outside them (the default)."""
+    from . import ieval
+    db = facts.db_of(f)
+    if db is None or len(f.get("params", ())) != 1 or not f.get("body"):
+        return None
+    pt = facts.tyi(f, f["params"][0].get("t")) or {}
+    rt = facts.tyi(f, f.get("ret")) or {}
+    if pt.get("k") != "enum" or rt.get("k") not in ("enum", "int") or pt.get("name") not in db.enums:
+        return None
+    names = {}
+    if rt.get("k") == "enum" and rt.get("name") in db.enums:
+        for en in db.enums[rt["name"]]["enumerators"]:
+            names.setdefault(en["v"], en.get("qual") or en["name"])
+    pv = f["params"][0]["var"]
+    vals = sorted(set(en["v"] for en in db.enums[pt["name"]]["enumerators"]))
+    outside = max(vals) + 1 if vals else 0
+
+    def run(v):
+        r = ieval.run_body(f, f["body"], {pv: v, "__db__": db})
+        if r is None:
+            raise ieval.Unknown("no value returned")
+        oc = ("const", int(r), names.get(int(r)))
+        return oc, [oc]
+    try:
+        default = run(outside)
+        table = {}
+        for v in vals:
+            oc = run(v)
+            if oc[0] != default[0]:
+                table[int(v)] = oc
+    except ieval.Unknown:
+        return None
+    return table, default, f["body"]
